@@ -141,6 +141,19 @@ Definition inv_deadline_seen_timer (st : state) : bool :=
           && negb (is_nil (tm (lc t))))
     || timer_follows t) st.
 
+(* -- expiry wakes: parked, no wake-up pending, the stored deadline has PASSED => the timeout case
+      can still fire (c is the timer channel and the timer runs or has delivered) *)
+Definition inv_expiry_wakes (st : state) : bool :=
+  all_threads (fun t s =>
+    negb (at_select t && negb (wake_pending t s) && match dl_of t s with DPast => true | _ => false end)
+    || timeout_enabled t) st.
+(* the same, only for calls that already own a timer (isolates F11 from F12) *)
+Definition inv_expiry_wakes_timer (st : state) : bool :=
+  all_threads (fun t s =>
+    negb (at_select t && negb (wake_pending t s) && match dl_of t s with DPast => true | _ => false end
+          && negb (is_nil (tm (lc t))))
+    || timeout_enabled t) st.
+
 (* -- closed channels are broadcast *)
 Definition inv_close_wakes (st : state) : bool :=
   all_threads (fun t s =>
@@ -207,6 +220,12 @@ Definition inv_multi_writer (st : state) : bool :=
   | l => forallb (fun st' => wtok (sh st') && Nat.eqb (bad st') 0) l
   end.
 
+(* the two-message form of the multi-reader statement: PeekSize() > 0 is left unclaimed *)
+Definition inv_multi_peek (st : state) : bool :=
+  all_threads (fun t s =>
+    negb (at_select t && match fn t with FRead => negb (Nat.eqb (readable s) 0) | _ => false end)
+    || wake_pending t s || existsb in_flight (ths st)) st.
+
 Definition inv_and (ps : list (state -> bool)) (st : state) : bool := forallb (fun p => p st) ps.
 
 End Pred.
@@ -270,3 +289,56 @@ Definition sh_rd (v : dlv) : shared := set_rd v sh0.
 Definition sh_wd (v : dlv) : shared := set_wd v sh0.
 
 Definition rep {A} (n : nat) (x : A) : list A := repeat x n.
+
+(* ------------------------------------------------------------------ the named systems *)
+Inductive caller := Reader | Writer | Accepter.
+Definition fn_of (c : caller) : proc :=
+  match c with Reader => FRead | Writer => FWriteBuffers | Accepter => FAcceptKCP end.
+
+(* one call against everything the rest of the program may do to it (covers any number of
+   other callers for per-call safety statements) *)
+Definition sys_tm (prog : proc -> list stmt) (c : caller) (async : bool) : sysdef :=
+  mkSys async 2 prog true
+        (match c with Reader => env_read_tm | Writer => env_write_tm | Accepter => env_accept_tm end)
+        [st0 [fn_of c]].
+
+(* one caller of a kind, nobody else consumes, calls may follow each other *)
+Definition sys_1 (prog : proc -> list stmt) (c : caller) (async : bool) : sysdef :=
+  mkSys async 2 prog true
+        (match c with Reader => env_read_1 | Writer => env_write_1 | Accepter => env_accept_1 end)
+        [st0 [fn_of c]].
+
+(* the same with SetDeadline (both directions) as the setter *)
+Definition sys_1d (prog : proc -> list stmt) (c : caller) (async : bool) : sysdef :=
+  mkSys async 2 prog false
+        (match c with Reader => env_read_1d | Writer => env_write_1d | Accepter => env_accept_1 end)
+        [st0 [fn_of c]].
+
+(* a deadline is stored before the call and is only ever replaced by another deadline
+   (later, earlier, already past), never cleared; for Accept: stored before the call, unchanged *)
+Definition sys_rearm (prog : proc -> list stmt) (c : caller) (async : bool) : sysdef :=
+  match c with
+  | Reader => mkSys async 2 prog false env_read_rearm
+                    [st_with (sh_rd DFuture) [FRead]; st_with (sh_rd DPast) [FRead]]
+  | Writer => mkSys async 2 prog false env_write_rearm
+                    [st_with (sh_wd DFuture) [FWriteBuffers]; st_with (sh_wd DPast) [FWriteBuffers]]
+  | Accepter => mkSys async 2 prog false ([LArrive; LLClose; LLErr; LTick LRD] ++ env_timer 1 ++ env_recall 1)
+                    [st_with (set_lrd DFuture sh0) [FAcceptKCP]; st_with (set_lrd DPast sh0) [FAcceptKCP]]
+  end.
+
+(* smallest systems exhibiting the refuted deadline sequences *)
+Definition sys_none_then_set (prog : proc -> list stmt) (c : caller) (async : bool) : sysdef :=
+  mkSys async 1 prog false
+        (match c with Reader => env_read_dl | Writer => env_write_dl | Accepter => env_accept_dl end)
+        [st0 [fn_of c]].
+Definition sys_set_zero_set (prog : proc -> list stmt) (c : caller) (async : bool) : sysdef :=
+  mkSys async 1 prog false
+        (match c with Reader => env_read_dl | Writer => env_write_dl | Accepter => env_accept_dl end)
+        [st_with (match c with Reader => sh_rd DFuture | Writer => sh_wd DFuture | Accepter => set_lrd DFuture sh0 end)
+                 [fn_of c]].
+
+(* n identical callers on one session / listener *)
+Definition sys_n (prog : proc -> list stmt) (c : caller) (n : nat) (async : bool) : sysdef :=
+  mkSys async 3 prog false
+        (match c with Reader => env_read_n n | Writer => env_write_n n | Accepter => env_accept_n n end)
+        [st0 (rep n (fn_of c))].
